@@ -16,8 +16,8 @@ METHOD_OF = {"save_group": 0, "find_group": 1, "save_message": 4, "find_message"
              "save_welcome": 22, "mls_write": 90, "mls_read": 91, "mls_delete": 92, "snap_create": 27, "snap_rollback": 28}
 
 def sections(facts_shape, method):
-    m = re.search(r"\(1, %d, \"[^\"]*\", \[([^\]]*)\]" % method, facts_shape)
-    return None if not m else m.group(1).count("(")
+    secs = E._lockshape().parse_sections(facts_shape, 1, method)
+    return None if secs is None else len(secs)
 
 def generate(seed, ncases, length):
     rng = random.Random(seed * 31 + 5)
